@@ -292,6 +292,15 @@ func (k *c05Kind) gen(r *rand.Rand, nan int) c05Val {
 	}
 }
 
+// c05SignExtend: the same two's-complement value in a wider representation (the empty string is 0).
+func c05SignExtend(r *rand.Rand, v c05Val) c05Val {
+	pad := byte(0)
+	if len(v.b) > 0 && v.b[0]&0x80 != 0 {
+		pad = 0xff
+	}
+	return c05Val{b: append(bytes.Repeat([]byte{pad}, 1+r.Intn(3)), v.b...)}
+}
+
 // list of n values in one of several arrangements
 func (k *c05Kind) genList(r *rand.Rand, n int) ([]c05Val, string) {
 	nanMode := "none"
@@ -332,6 +341,14 @@ func (k *c05Kind) genList(r *rand.Rand, n int) ([]c05Val, string) {
 				b[r.Intn(len(b))] = byte(r.Intn(256))
 			}
 			vs[i] = c05Val{b: b}
+		}
+	}
+	if k.name == "decb" && n > 1 && r.Intn(2) == 0 {
+		// equal VALUES in different widths (sign-extended copies of a neighbour): the order scan must
+		// treat them as a streak of equal values, the bounds loops as ties
+		for c := 0; c <= r.Intn(1+n/2); c++ {
+			i := r.Intn(n)
+			vs[i] = c05SignExtend(r, vs[r.Intn(n)])
 		}
 	}
 	arr := []string{"random", "random", "asc", "desc", "asc1", "desc1"}[r.Intn(6)]
@@ -404,7 +421,7 @@ func c05Recover(f func()) (p any) {
 // ---------------------------------------------------------------- pure sub-check
 
 func RunC05Pure(ctx *core.Ctx) {
-	ctx.SetRule("pure functions of the statistics code on generated inputs: truncateLarge{Min,Max}ByteArrayValue (0xFF-heavy strings, limits 0..66), Page.Bounds() of every column kind through the type's column buffer and the min/max/bounds kernels (NaN first/last/all/sprinkled, -0.0/+0.0, signed/unsigned extremes, lengths around vector widths), orderOf* kernels, Type.Compare, and ColumnIndexer.IndexPage/ColumnIndex with null pages anywhere and limits 1..64; each compared with the Lean mirror (L2) and with the property's oracle (L1); distinct by canonical input text, non-trivial = at least 2 values / pages (truncation: value longer than the limit)")
+	ctx.SetRule("pure functions of the statistics code on generated inputs: truncateLarge{Min,Max}ByteArrayValue (0xFF-heavy strings, limits 0..66), Page.Bounds() of every column kind through the type's column buffer, Dictionary.Bounds(indexes) of every kind (the bounds of dictionary-encoded pages, with unreferenced dictionary entries) and the min/max/bounds kernels (NaN first/last/all/sprinkled, -0.0/+0.0, signed/unsigned extremes, lengths around vector widths), orderOf* kernels and orderOfDecimalBytes (mixed-width two's complement, equal values in different widths), Type.Compare, and ColumnIndexer.IndexPage/ColumnIndex with null pages anywhere and limits 1..64; each compared with the Lean mirror (L2) and with the property's oracle (L1); distinct by canonical input text, non-trivial = at least 2 values / pages (truncation: value longer than the limit)")
 	if ctx.Replay != "" {
 		b := &c05Batch{ctx: ctx, d: ctx.Driver()}
 		c05ReplayPure(ctx, b)
@@ -447,7 +464,7 @@ func RunC05Pure(ctx *core.Ctx) {
 
 // corpus/C05/*.case: minimised past disagreements, one case per line, replayed first:
 //
-//	trunc <hex> <limit> | bounds <kind> <values> | order <kind> <values> | index <kind> <limit> <pages (min:max or n)>
+//	trunc <hex> <limit> | bounds <kind> <values> | dictbounds <kind> <values> <unreferenced values> | order <kind> <values> | index <kind> <limit> <pages (min:max or n)>
 func c05PureCorpus(ctx *core.Ctx, b *c05Batch) {
 	for _, path := range ctx.CorpusFiles() {
 		data, err := os.ReadFile(path)
@@ -484,7 +501,7 @@ func c05ReplayDetail(ctx *core.Ctx) map[string]any {
 	return obj.Detail
 }
 
-// c05ReplayPure re-runs one recorded pure case (detail.op = trunc | bounds | order | index).
+// c05ReplayPure re-runs one recorded pure case (detail.op = trunc | bounds | dictbounds | order | index).
 func c05ReplayPure(ctx *core.Ctx, b *c05Batch) {
 	d := c05ReplayDetail(ctx)
 	if d == nil {
@@ -498,6 +515,8 @@ func c05ReplayPure(ctx *core.Ctx, b *c05Batch) {
 		toks = []string{"trunc", str("value"), num("limit")}
 	case "bounds":
 		toks = []string{"bounds", str("kind"), str("values")}
+	case "dictbounds":
+		toks = []string{"dictbounds", str("kind"), str("values"), str("unreferenced")}
 	case "order":
 		toks = []string{"order", str("kind"), str("values")}
 	case "index":
@@ -547,6 +566,25 @@ func c05CorpusLine(ctx *core.Ctx, b *c05Batch, toks []string) bool {
 			}
 		}
 		c05BoundsCase(ctx, b, k, vs, "corpus")
+	case toks[0] == "dictbounds" && len(toks) == 4:
+		k := c05KindByName(toks[1])
+		if k == nil {
+			return false
+		}
+		var lists [2][]c05Val
+		for li, t := range toks[2:4] {
+			if t == "-" || t == "" {
+				continue
+			}
+			for _, s := range strings.Split(t, ",") {
+				v, ok := k.parse(s)
+				if !ok {
+					return false
+				}
+				lists[li] = append(lists[li], v)
+			}
+		}
+		c05DictBoundsCase(ctx, b, k, lists[0], lists[1], "corpus")
 	case toks[0] == "order" && len(toks) == 3:
 		k := c05KindByName(toks[1])
 		if k == nil {
@@ -675,6 +713,84 @@ func c05PageBounds(k *c05Kind, vs []c05Val) (mn, mx c05Val, ok bool, pan any) {
 	return
 }
 
+// c05DictBounds runs Dictionary.Bounds(indexes) — where the bounds of a dictionary-encoded page come from
+// (indexedPage.Bounds) — on a dictionary built by the type from the values, with extra entries no index
+// refers to (they must not leak into the bounds).
+func c05DictBounds(k *c05Kind, vs []c05Val, extra []c05Val) (mn, mx c05Val, pan any) {
+	pan = c05Recover(func() {
+		dict := k.typ.NewDictionary(0, 0, k.typ.NewValues(nil, nil))
+		if len(extra) > 0 {
+			ev := make([]parquet.Value, len(extra))
+			for i, v := range extra {
+				ev[i] = k.value(v)
+			}
+			dict.Insert(make([]int32, len(ev)), ev)
+		}
+		vals := make([]parquet.Value, len(vs))
+		for i, v := range vs {
+			vals[i] = k.value(v)
+		}
+		idx := make([]int32, len(vals))
+		dict.Insert(idx, vals)
+		a, c := dict.Bounds(idx)
+		mn, mx = k.fromValue(a), k.fromValue(c)
+	})
+	return
+}
+
+// c05DictBoundsCase: L1 oracle and L2 mirror for the bounds of a dictionary-encoded page.
+func c05DictBoundsCase(ctx *core.Ctx, b *c05Batch, k *c05Kind, vs, extra []c05Val, arr string) {
+	if len(vs) == 0 {
+		return
+	}
+	canon := "dictbounds " + k.name + " " + k.texts(vs) + " " + k.texts(extra)
+	ctx.Case(canon, len(vs) >= 2)
+	ctx.Hist("dictbounds-kind", k.name)
+	ctx.Hist("dictbounds-len", c05Bucket(len(vs)))
+	detail := func(extra2 map[string]any) map[string]any {
+		m := map[string]any{"op": "dictbounds", "kind": k.name, "values": k.texts(vs), "unreferenced": k.texts(extra), "arrangement": arr}
+		for kk, v := range extra2 {
+			m[kk] = v
+		}
+		return m
+	}
+	mn, mx, pan := c05DictBounds(k, vs, extra)
+	if pan != nil {
+		ctx.Fail("L1", "dict-bounds-panic "+k.name, fmt.Sprint(pan), detail(nil))
+		return
+	}
+	got := "ok " + k.text(mn) + " " + k.text(mx)
+	if key, what := c05BoundsOracle(k, vs, mn, mx, true, true); key != "" {
+		ctx.Fail("L1", c05BoundKey("dict-page-bounds ", key, k.name), "bounds of a dictionary-encoded page: "+what, detail(map[string]any{"bounds": got}))
+	}
+	if k.drv == "" {
+		return
+	}
+	drvKind := k.drv
+	if drvKind == "dec" {
+		drvKind = "decd" // decimalDictionary.Bounds is a switch loop of its own
+	}
+	b.ask("c05.bounds "+drvKind+" "+k.texts(vs), func(ans string) {
+		if ans == got {
+			return
+		}
+		// equal values with different representations (-0.0/+0.0, sign-extended decimals): any of
+		// them is a correct bound and the kernels may pick another one than the portable loop
+		var amn, amx c05Val
+		f := strings.Fields(ans)
+		if len(f) == 3 {
+			var ok1, ok2 bool
+			amn, ok1 = k.parse(f[1])
+			amx, ok2 = k.parse(f[2])
+			if ok1 && ok2 && !k.isNaN(amn) && !k.isNaN(mn) && !k.isNaN(amx) && !k.isNaN(mx) && k.float && k.cmp(amn, mn) == 0 && k.cmp(amx, mx) == 0 {
+				ctx.Hist("dictbounds-zero-sign-differs", k.name)
+				return
+			}
+		}
+		ctx.Fail("L2", "dict-bounds-mirror "+k.name, "Dictionary.Bounds(indexes) differs from the Lean mirror", detail(map[string]any{"impl": got, "model": ans, "build": ctx.Variant}))
+	})
+}
+
 // c05BoundsOracle checks the property on (values, recorded bounds): exact = bounds must be attained.
 // Returns "" or a failure key.
 func c05BoundsOracle(k *c05Kind, vs []c05Val, mn, mx c05Val, has bool, exact bool) (key, what string) {
@@ -766,6 +882,13 @@ func c05PureBounds(ctx *core.Ctx, r *rand.Rand, b *c05Batch) {
 	}
 	vs, arr := k.genList(r, n)
 	c05BoundsCase(ctx, b, k, vs, arr)
+	if r.Intn(2) == 0 {
+		var extra []c05Val
+		for i := r.Intn(3); i > 0; i-- {
+			extra = append(extra, k.gen(r, 2))
+		}
+		c05DictBoundsCase(ctx, b, k, vs, extra, arr)
+	}
 }
 
 func c05BoundsCase(ctx *core.Ctx, b *c05Batch, k *c05Kind, vs []c05Val, arr string) {
@@ -983,7 +1106,7 @@ func c05PureBig(ctx *core.Ctx) {
 }
 
 func c05PureOrder(ctx *core.Ctx, r *rand.Rand, b *c05Batch) {
-	names := []string{"i32", "i64", "u32", "u64", "f32", "f64", "bytes", "bool", "int96"}
+	names := []string{"i32", "i64", "u32", "u64", "f32", "f64", "bytes", "bool", "int96", "decb", "dec9"}
 	k := c05KindByName(names[r.Intn(len(names))])
 	n := c05Len(r)
 	if k.isBytes() && n > 200 {
@@ -1057,6 +1180,13 @@ func c05OrderCase(ctx *core.Ctx, b *c05Batch, k *c05Kind, vs []c05Val, arr strin
 				}
 			}
 			got = deprecated.OrderOfInt96(d)
+		case "decb", "dec9":
+			// the boundary-order scan of the binary decimal column indexer (signed order, mixed widths)
+			d := make([][]byte, n)
+			for i, v := range vs {
+				d[i] = v.b
+			}
+			got = parquet.VerifOrderOfDecimalBytes(d)
 		}
 	})
 	detail := map[string]any{"op": "order", "kind": k.name, "values": k.texts(vs), "arrangement": arr, "order": got}
@@ -1300,7 +1430,7 @@ func c05IndexCase(ctx *core.Ctx, b *c05Batch, k *c05Kind, lim int, pages []*[2]c
 			ctx.Fail("L1", "index-min-above-page-min "+k.name, "column index min entry is greater than the page min", d)
 		}
 		if k.cmp(mx, p[1]) < 0 {
-			if k.isBytes() && len(p[1].b) > lim && c05AllFF(p[1].b[:lim]) {
+			if k.isBytes() && k.drv != "dec" && len(p[1].b) > lim && c05AllFF(p[1].b[:lim]) {
 				ctx.Fail("L1", "truncmax-all-ff-prefix", "column index max entry is smaller than the page max (truncated prefix all 0xFF)", d)
 			} else {
 				ctx.Fail("L1", "index-max-below-page-max "+k.name, "column index max entry is smaller than the page max", d)
@@ -1308,11 +1438,10 @@ func c05IndexCase(ctx *core.Ctx, b *c05Batch, k *c05Kind, lim int, pages []*[2]c
 		}
 	}
 	c05OrderClaim(ctx, k, int(fi.BoundaryOrder), fi.NullPages, mins, maxs, detail(nil))
-	// L2: the Lean mirrors of the numeric, byte-array and fixed-length indexers (the binary decimal
-	// indexer has no mirror: it is checked by the oracle above only)
+	// L2: the Lean mirrors of the numeric, byte-array, fixed-length and binary decimal indexers
 	drvKind := k.drv
 	switch {
-	case k.drv == "" || k.drv == "dec":
+	case k.drv == "":
 		return
 	case k.drv == "flba" && k.size == 16:
 		drvKind = "be128"
